@@ -913,9 +913,14 @@ func (tx *Transaction) ProcessRequestHeaders() *types.Interruption {
 
 func setAndReturnBodyLimitInterruption(tx *Transaction, status int) (*types.Interruption, int, error) {
 	tx.debugLogger.Warn().Msg("Disrupting transaction with body size above the configured limit (Action Reject)")
-	tx.interruption = &types.Interruption{
-		Status: status,
-		Action: "deny",
+	// An interruption is final: a body-limit rejection never replaces an earlier one.
+	// Interrupt honours the engine mode, so that after ctl:ruleEngine=DetectionOnly
+	// the rejection is only remembered, like any other disruptive action.
+	if tx.interruption == nil {
+		tx.Interrupt(&types.Interruption{
+			Status: status,
+			Action: "deny",
+		})
 	}
 	return tx.interruption, 0, nil
 }
